@@ -552,6 +552,8 @@ def exec_block(env, rec, me, body):
             try:
                 yield from exec_block(env, rec, me, st["body"])
             except CATCHABLE as e:
+                if rec.handle is not None and rec.handle.is_computed():
+                    raise      # the generator of an already failed task is being closed: do not go on
                 rec.got.append(["caught", canon(exc_key(e))])
         elif op == "sync":
             sc = st["task"]
@@ -651,7 +653,21 @@ def wrapper_task(env, t, rec):
 # running one case
 # ---------------------------------------------------------------------------------
 
-def run_program(prog, check_c04=False, check_c06=False, reset=True, options=None):
+class FakeClock(object):
+    """harness clock for asynq's utime(): advances by a fixed amount per reading"""
+
+    def __init__(self, inc):
+        self.now = 1000000
+        self.inc = inc
+        self.reads = 0
+
+    def __call__(self):
+        self.now += self.inc
+        self.reads += 1
+        return self.now
+
+
+def run_program(prog, check_c04=False, check_c06=False, reset=True, options=None, clock=None):
     """Runs the program on asynq. Returns env; env.outcome is ["ok", v] | ["exc", key] | ["escaped", type, text]."""
     if reset:
         reset_process_state()
@@ -727,6 +743,9 @@ def run_program(prog, check_c04=False, check_c06=False, reset=True, options=None
     sch.on_before_batch_flush.subscribe(before)
     sch.on_after_batch_flush.subscribe(after)
     conv = prog.get("conv", "value")
+    real_utime = asynq.scheduler.utime
+    if clock is not None:
+        asynq.scheduler.utime = clock
     try:
         with sink.capture_print():
             if conv == "call":
@@ -746,6 +765,7 @@ def run_program(prog, check_c04=False, check_c06=False, reset=True, options=None
         env.outcome = ["escaped", type(e).__name__, str(e)[:200]]
         env.raised = e
     finally:
+        asynq.scheduler.utime = real_utime
         try:
             sch.on_before_batch_flush.unsubscribe(before)
             sch.on_after_batch_flush.unsubscribe(after)
